@@ -59,6 +59,7 @@ type actionDef struct {
 	DurMs  int
 	FailAt int  // 0 never, -1 always, k>0: the k-th run by an actor fails
 	Hang   bool // sleep 300 instead of DurMs
+	Extra  string // extra shell text run before the sleep
 }
 
 type playDef struct {
@@ -113,8 +114,8 @@ func (p *playDef) render(ledger string) string {
 			if a.Hang {
 				sl = "300"
 			}
-			fmt.Fprintf(&b, "  :%s n=$(cat %s.n 2>/dev/null || echo 0); n=$((n+1)); echo $n >%s.n; echo \"$ME A %s $n S $(date +%%s%%N)\" >>$LEDGER; sleep %s; rc=0; if %s; then rc=3; fi; echo \"$ME A %s $n E $(date +%%s%%N) $rc\" >>$LEDGER; exit $rc\n",
-				a.Name, a.Name, a.Name, a.Name, sl, cond, a.Name)
+			fmt.Fprintf(&b, "  :%s n=$(cat %s.n 2>/dev/null || echo 0); n=$((n+1)); echo $n >%s.n; echo \"$ME A %s $n S $(date +%%s%%N)\" >>$LEDGER; %ssleep %s; rc=0; if %s; then rc=3; fi; echo \"$ME A %s $n E $(date +%%s%%N) $rc\" >>$LEDGER; exit $rc\n",
+				a.Name, a.Name, a.Name, a.Name, a.Extra, sl, cond, a.Name)
 		}
 		// cleanup
 		body := ""
@@ -219,6 +220,7 @@ type observation struct {
 	Ledger           []ledgerRow
 	Cleanups         []cleanRow
 	SpotStarts       map[string]int64
+	SpotEnds         map[string]int64
 	Csv              []csvRow
 	Survivors        []survivor
 	Output           string
@@ -364,6 +366,7 @@ loop:
 	obs.Output = o
 	// ledger
 	obs.SpotStarts = map[string]int64{}
+	obs.SpotEnds = map[string]int64{}
 	pending := map[string]int{}
 	if f, err := os.Open(ledger); err == nil {
 		sc := bufio.NewScanner(f)
@@ -417,7 +420,11 @@ loop:
 					continue
 				}
 				ts, _ := strconv.ParseInt(w[3], 10, 64)
-				obs.SpotStarts[w[0]] = ts
+				if w[2] == "E" {
+					obs.SpotEnds[w[0]] = ts
+				} else {
+					obs.SpotStarts[w[0]] = ts
+				}
 			default:
 				bad()
 			}
@@ -728,15 +735,15 @@ func baseC07(name string) *playDef {
 	for _, n := range []string{"a0s0", "b0s0", "b1s0", "c0s0"} {
 		p.Actions = append(p.Actions, actionDef{Name: n, DurMs: 40})
 	}
-	p.Actions = append(p.Actions, actionDef{Name: "w0s0", DurMs: 0})
+	p.Actions = append(p.Actions, actionDef{Name: "w0s0", DurMs: 0, Extra: "echo \"v 7\" >>sp.log; "})
 	p.Scenes = []sceneDef{
 		{"a", []entailDef{{"x1", []stepDef{{"a0s0", false}}}}},
 		{"b", []entailDef{{"x1", []stepDef{{"b0s0", false}}}, {"x2", []stepDef{{"b1s0", false}}}}},
 		{"c", []entailDef{{"x2", []stepDef{{"c0s0", false}}}}},
 	}
-	p.Story = []string{"abc"}
+	p.Story = []string{"abc .........."}
 	p.SpotKind = 1
-	p.Spot["x1"] = "touch sp.log; tail -F sp.log"
+	p.Spot["x1"] = "touch sp.log; tail -s 0.05 -F sp.log"
 	p.Spot["x2"] = "sleep 300"
 	p.Audience = []string{"bob watches x1 v", "bob expects always: [x1 v] >= 0"}
 	return p
@@ -780,7 +787,7 @@ func genC07(rng *rand.Rand, tier string) []*playDef {
 			continue
 		}
 		p := baseC07("")
-		p.Spot["x2"] = fmt.Sprintf("sleep %s; exit 5", durArg(at))
+		p.Spot["x2"] = fmt.Sprintf("sleep %s; echo \"$ME P E $(date +%%s%%N)\" >>$LEDGER; exit 5", durArg(at))
 		p.SpotKind = 3
 		add(p, "spotlight-fails", fmt.Sprintf("%dms", at))
 	}
@@ -867,7 +874,7 @@ func genC07(rng *rand.Rand, tier string) []*playDef {
 		{"cleanup-hangs-2", "x1", func(p *playDef) { p.CleanHangAt = 2; p.CleanActor = "x1" }},
 		{"action-hangs-spotlight-fails", "c0s0", func(p *playDef) {
 			p.action("c0s0").Hang = true
-			p.Spot["x2"] = "sleep 0.5; exit 5"
+			p.Spot["x2"] = "sleep 0.5; echo \"$ME P E $(date +%s%N)\" >>$LEDGER; exit 5"
 			p.SpotKind = 3
 		}},
 		{"action-hangs-audit-foul-S", "c0s0", func(p *playDef) {
@@ -1000,9 +1007,28 @@ func coqFaultCase(c *caseOut) string {
 	} else if c.Def.Sig == int(syscall.SIGTERM) {
 		sig = 2
 	}
-	return fmt.Sprintf("mkFcase %d %d %s %s %s %s %s %s %s %d",
+	mark := int64(-1)
+	for _, t := range o.SpotEnds {
+		mark = t
+	}
+	for _, r := range o.Ledger {
+		if r.Action == "w0s0" && r.End > 0 {
+			mark = r.End
+		}
+	}
+	var totalWait int64
+	for _, act := range c.Play.Play {
+		var mx int64
+		for _, sc := range act {
+			if sc.WaitUntilNs > mx {
+				mx = sc.WaitUntilNs
+			}
+		}
+		totalWait += mx
+	}
+	return fmt.Sprintf("mkFcase %d %d %s %s %s %s %s %s %s %s %s %d",
 		faultIdx(c.Def.Fault), sig, vh.Bool(o.Exited), vh.Z(o.WallMs), vh.Z(int64(o.Exit)),
-		vh.List(per), vh.List(acts), vh.List(spots), vh.Z(o.SigSentNs), len(o.Survivors))
+		vh.List(per), vh.List(acts), vh.List(spots), vh.Z(o.SigSentNs), vh.Z(mark), vh.Z(totalWait), len(o.Survivors))
 }
 
 func main() {
